@@ -314,7 +314,11 @@ func historyString(m *Machine) string {
 }
 
 // runWorldProp is the body of every world-machine property test.
-func runWorldProp(t *testing.T, name string) {
+func runWorldProp(t *testing.T, name string) { runWorldPropWith(t, name, nil) }
+
+// runWorldPropWith: probe, if set, may derive from a freshly drawn action a variant to run
+// immediately before it (the action itself then follows as the next step).
+func runWorldPropWith(t *testing.T, name string, probe func(t *rapid.T, m *Machine, a Action) *Action) {
 	p := worldProps[name]
 	if p == nil {
 		t.Fatalf("unknown world property %s", name)
@@ -342,11 +346,24 @@ func runWorldProp(t *testing.T, name string) {
 		if len(g.Tempos) > 0 {
 			g.MaxDt = g.Tempos[uniform(rt, len(g.Tempos), "tempo")]
 		}
+		var queued *Action
 		runCase(rt, p, cfg, func(m *Machine, i int) (Action, bool) {
+			if queued != nil {
+				a := *queued
+				queued = nil
+				return a, true
+			}
 			if i >= n {
 				return Action{}, false
 			}
-			return m.Draw(rt, &g), true
+			a := m.Draw(rt, &g)
+			if probe != nil && pct(rt, 50, "probe?") {
+				if pr := probe(rt, m, a); pr != nil {
+					queued = &a
+					return *pr, true
+				}
+			}
+			return a, true
 		})
 	})
 }
